@@ -455,3 +455,48 @@ func TestRoundTrip(t *testing.T) {
 		record(a, ver, dir, body)
 	})
 }
+
+// TestProducePageBoundary: produce requests whose second record set starts just below a multiple of 64 KiB in the encoder's
+// buffer, swept byte by byte: the fields the encoder fills in afterwards (batch length, checksum, counts) then straddle or
+// touch the page boundary.
+func TestProducePageBoundary(t *testing.T) {
+	a := refcodec.MustLookup(0)
+	n := 0
+	for _, ver := range []int16{2, 3, 7, 8} {
+		if ver < a.Min || ver > a.Max {
+			continue
+		}
+		magic := int8(2)
+		if ver < 3 {
+			magic = 1
+		}
+		step := 1
+		if ev.Tier() != "thorough" {
+			step = 3
+		}
+		for pages := 1; pages <= 2; pages++ {
+			for delta := 0; delta <= 240; delta += step {
+				big := make([]byte, pages*65536-delta)
+				for i := range big {
+					big[i] = byte(i*11 + delta)
+				}
+				mk := func(recs []refcodec.Record) *refcodec.RecordSet {
+					if magic == 2 {
+						return &refcodec.RecordSet{Batches: []refcodec.Batch{refcodec.MakeBatchV2(recs, 0)}}
+					}
+					return &refcodec.RecordSet{Batches: []refcodec.Batch{{Magic: 1, Records: recs, RelativeInner: true}}}
+				}
+				rs1 := mk([]refcodec.Record{{Offset: 0, Timestamp: 1000, KeyNull: true, Value: big}})
+				rs2 := mk([]refcodec.Record{{Offset: 0, Timestamp: 2000, Key: []byte("k"), Value: []byte("second partition")}, {Offset: 1, Timestamp: 2001, KeyNull: true, Value: []byte("x")}})
+				body := map[string]any{"Acks": int64(-1), "Timeout": int64(1000), "Topics": []any{map[string]any{"Topic": "t", "Partitions": []any{
+					map[string]any{"Partition": int64(0), "RecordSet": rs1}, map[string]any{"Partition": int64(1), "RecordSet": rs2}}}}}
+				if ver >= 3 {
+					body["TransactionalID"] = nil
+				}
+				checkRequest(t, a, ver, int32(1000+delta), "c04", body)
+				n++
+			}
+		}
+	}
+	ev.Bulk(int64(n), "produce_page_boundary_sweep")
+}
